@@ -30,9 +30,18 @@ def outdiscard_consts(runs):
                       InFaults=['none'])
 
 
+def lost_consts(runs):
+    """a run whose finalisation is itself interrupted (BaseException of the post-operation metadata extractor: the
+    recording is neither saved nor aborted), followed by further runs"""
+    return gen_consts(1, runs, InCalls=[('ia1', 1)], InFaults=['none'], Bodies=['plain', 'forces'], Ctl=['force'],
+                      Classes=[K('K1'), K('K2', rate='frac'), K('K0', rate='zero')], SaveFails=[False], Ends=['ret', 'raise'],
+                      Modes=['same'], PlayFaults=[], Extractors=['none', 'interrupts'], OutResults=[('val', 'v1')])
+
+
 def run(rep, tier, seed):
     rep.rule = ('behaviours = complete paths of the TLC state graph of Recorder.tla with histories of 2-3 runs on one '
-                'recorder (successful, raising, interrupted, discarded, sampled out, forced, failing save, replay of a '
+                'recorder (successful, raising, interrupted, discarded, sampled out, forced, failing save, finalisation '
+                'interrupted inside the metadata extractor, replay of a '
                 'missing id, replay failing with a missing key, replay whose playback function raises) - every run '
                 'after the first is executed twice: on the used recorder and on a fresh recorder over the same '
                 'cassette content, and everything observable (what each call saw, bodies run, cassette calls, stored '
@@ -57,7 +66,9 @@ def run(rep, tier, seed):
                                                 Modes=['free'], PlayFaults=['raise']),
                          cassettes=('memory', 'file'), n_conc=1, sample=2500, cap=4000)
             chk.generate('outdiscard', outdiscard_consts(2), cassettes=('memory',), n_conc=1, all_paths=True, cap=20000)
+            chk.generate('lostthen', lost_consts(2), cassettes=('memory',), n_conc=1, all_paths=True, cap=20000)
         else:
+            chk.generate('lostthen', lost_consts(3), cassettes=('memory', 'file'), n_conc=1, sample=40000, cap=60000, max_states=800000)
             chk.generate('outdiscard', outdiscard_consts(3), cassettes=('memory', 'file'), n_conc=1, all_paths=True, cap=150000)
             chk.check('chk', gen_consts(2, 2), invariants=INVS, timeout=3000)
             chk.check('chk3runs', gen_consts(1, 3), invariants=INVS, timeout=3000)
